@@ -391,6 +391,8 @@ def _judge_viss(d, o, P, paths, meta, subs, core_lines, core_out):
                     continue
                 can = P.can(p, "actuate", d["path"], False)
                 dom = V.in_domain(m["dtype"], m.get("min"), m.get("max"), m.get("allowed"), v, True) if v else False
+                if v and dom is False and V.in_domain(m["dtype"], m.get("min"), m.get("max"), m.get("allowed"), v, False) is not False:
+                    dom = None        # inside the broker's float tolerance: either answer is admissible
                 if r[0] == 0:
                     if v is None:
                         fails.append("C20-set: text %r was accepted for %s of type %s" % (
